@@ -5,6 +5,22 @@ ROOT = os.path.dirname(os.path.dirname(os.path.abspath(__file__)))
 ids = [json.loads(l)['id'] for l in open(os.path.join(ROOT, 'properties.jsonl'))]
 TECH = 'contract-based deductive verification: VCs generated from the real source by pyvc (ast -> z3), discharged for symbolic sizes; '
 CLAIMS = {
+ 'C01': dict(level='proof', ref='DESIGN.md 4 C01',
+   text='The state predicate of the statement (labels in range, reported distance = metric distance to the assigned centre, no reported centre strictly closer, every centre frame carries its own label at distance zero, reported centre = frame at its index) is an SMT-discharged postcondition, for symbolic data size / cluster count / metric, of k-centers (cold and warm start, four stopping-criteria configurations, with and without the triangle shortcut), of the k-medoids PAM update and sweep loop (random and arbitrary explicit proposals) and of k-hybrid; input arrays are frame obligations.',
+   note='metric callable assumed to obey out[i]=d(X[i],y) with d finite, non-negative, d(x,x)=0 (compiled metrics: C13); distinct points; serial mode; floats as reals; estimator classes and kmedoids() input handling only bounded (run-time contracts); k-centers termination not proved; one listed finding (n_iters=0) excluded by witness class',
+   tech=TECH + 'loop invariants, ghost history arrays, induction cuts, callee contracts lifted row-wise through masks; Lean lemma for cost monotonicity; run-time contracts on the real code as bounded side evidence and for counter-model replay'),
+ 'C02': dict(level='proof', ref='DESIGN.md 4 C02',
+   text='Farthest-first choice (ghost arrays holding distance/label/radius at the moment each centre was chosen), non-increasing covering radius, exact stopping (not early by the loop guard, not late: every added centre was added above the cutoff and below n_clusters), first centre = frame 0 on a cold start, supplied centres kept on a warm start, and identical functional postcondition for the plain and the triangle-inequality branch are SMT-discharged for symbolic sizes; the factor-2 bound is a Lean lemma over those clauses.',
+   note='metric symmetric with triangle inequality where the shortcut is used (the property\'s quantifier); distinct points; termination of the loop not proved; floats as reals',
+   tech=TECH + 'ghost loop state (history), Lean 4 + Mathlib lemma (Gonzalez bound); bounded run-time contracts replaying the greedy history'),
+ 'C09': dict(level='proof', ref='DESIGN.md 4 C09',
+   text='For the real _kmedoids_pam_update / _kmedoids_iterations / hybrid: cost (ghost MSQ = mean of squared distances) never increases, accept iff strictly lower with all state components replaced together, number of clusters fixed, every centre a frame of the input, consistent state preserved - for random proposals (nondeterministic member of the cluster, i.e. every seed) and arbitrary explicit proposal lists; hybrid hands the k-centers state over unchanged, so cost(hybrid) <= cost(k-centers).',
+   note='serial mode (_msq = plain mean of squares, linked to the ghost by a definitional axiom); metric contract; distinct points; MSQ monotonicity is a Lean lemma; kmedoids()/estimator glue bounded only; finding n_iters=0 excluded by witness class',
+   tech=TECH + 'loop invariants over the sweep and cluster loops, mid-function cut lemmas with local proofs; bounded run-time contracts over every proposal tuple of small data sets'),
+ 'C10': dict(level='proof', ref='DESIGN.md 4 C10',
+   text='assign_to_nearest_center: minimal and exact distance, first minimiser, any centre list; find_cluster_centers: per label present a member of smallest distance; partition_list: piece t is the window [PS(t), PS(t)+L[t]) and the windows cover the list (prefix-sum ghost with induction lemmas), raising exactly when the lengths do not sum to the list length; partition_indices: exactly one (trajectory, frame) pair per index, in order, addressing the same frame - all SMT-discharged for symbolic sizes.',
+   note='ClusterResult.partition, estimator.predict and batch reassignment are compositions checked by the bounded driver only; file/mdtraj I/O assumed; metric contract; np.where/np.unique/np.argmin primitive contracts',
+   tech=TECH + 'nested-loop invariants, prefix-sum ghost + SMT induction lemmas; bounded run-time contracts for the compositions'),
  'C20': dict(level='proof', ref='DESIGN.md 4 C20',
    text='All clauses (gates, exit test = not inside the widened basin with wrap-around, hysteresis recursion for every sequence length and buffer width, zero-buffer = binning, valid basin index; 1-D transition list sound/complete/increasing; 2-D one row per trajectory) are SMT-discharged obligations generated from the current rotamer.py / disorder.py for the three boundary sets the library uses.',
    note='floats as reals; angles avoid exact gate values (the property\'s quantifier); np.digitize/np.where/np.bincount/ra.where/RaggedArray(flat,lengths) primitive contracts trusted; per-row content of the 2-D result only bounded; one listed finding (all-constant 2-D input) excluded by witness class',
